@@ -643,3 +643,503 @@ Qed.
 
 Lemma enq_both_psorted m l : psorted l -> psorted (enq m l) /\ psorted (enq_front m l).
 Proof. intros H. exact (conj (enq_psorted m l H) (enq_front_psorted m l H)). Qed.
+
+(* ================= whole histories: nothing is ever duplicated ================= *)
+Definition is_pub (m : meth) : bool := match m with Publish _ _ _ _ _ _ _ _ => true | _ => false end.
+Definition SI (s : srv) : Prop := Closed s /\ UnackedOk s.
+
+Lemma occ_nonneg i s : 0 <= occ i s.
+Proof. unfold occ, cntu. pose proof (cntq_nonneg i (queues s)). pose proof (cntm_nonneg i (map u_msg (unacked s))). lia. Qed.
+
+Lemma delta_nonpub s m i : is_pub m = false -> delta s m i <= 0.
+Proof.
+  destruct m; cbn [is_pub delta]; intros H; try discriminate; try lia.
+  - destruct (take_tag tag (unacked s)) as [[u r]|]; [|lia]. unfold ind. destruct (a_id (u_msg u) =? i); lia.
+  - destruct (take_tag tag (unacked s)) as [[u r]|]; [|lia]. destruct (dl_target (u_q u)); [lia|]. unfold ind. destruct (a_id (u_msg u) =? i); lia.
+  - destruct (declared s k); [|lia]. pose proof (cntm_nonneg i (ready s k)). lia.
+Qed.
+
+Lemma exec_nonpub_le s now m i : SI s -> is_pub m = false -> occ i (fst (exec s now m)) <= occ i s.
+Proof. intros [HC HU] H. rewrite occ_exec by assumption. pose proof (delta_nonpub s m i H). lia. Qed.
+
+Lemma exec_pub_le s now k id prio topic hq payload pcode ex i :
+  SI s -> occ i (fst (exec s now (Publish k id prio topic hq payload pcode ex))) <= occ i s + ind (id =? i).
+Proof. intros [HC HU]. rewrite occ_exec by assumption. cbn [delta]. destruct (declared s k); unfold ind; destruct (id =? i); lia. Qed.
+
+(* the invariants survive the server's own run *)
+Lemma SI_pump fuel : forall s now, SI s -> SI (fst (pump fuel s now)).
+Proof.
+  induction fuel as [|f IH]; intros s now HS; cbn [pump fst]; [exact HS|]. destruct HS as [HC HU].
+  destruct (expire_one s now) as [s'|] eqn:E.
+  - apply IH. destruct (inv_expire_one s now s' HC HU E). split; assumption.
+  - destruct (deliver_one s) as [[s' d]|] eqn:D; [|split; assumption].
+    destruct (inv_deliver_one s s' d HC HU D) as [HC' HU']. specialize (IH s' now (conj HC' HU')).
+    destruct (pump f s' now) as [s'' ds]. exact IH.
+Qed.
+
+Lemma meth_ok_nondecl s m : (forall k, m <> Declare k) -> meth_ok s m.
+Proof. intros H. destruct m; cbn; auto. exfalso. eapply H. reflexivity. Qed.
+
+(* one method followed by the server's run *)
+Lemma do_meth_SI w now by_ m : SI (w_srv w) -> meth_ok (w_srv w) m -> SI (w_srv (fst (fst (do_meth w now by_ m)))).
+Proof.
+  intros [HC HU] Hok. unfold do_meth. destruct (exec (w_srv w) now m) as [s1 r] eqn:E.
+  pose proof (inv_exec (w_srv w) now m HC HU Hok) as HI. rewrite E in HI. cbn [fst] in HI.
+  pose proof (SI_pump PUMP_FUEL s1 now HI) as HP. destruct (pump PUMP_FUEL s1 now) as [s2 ds]. exact HP.
+Qed.
+
+Lemma do_meth_occ w now by_ m i : SI (w_srv w) -> meth_ok (w_srv w) m ->
+  occ i (w_srv (fst (fst (do_meth w now by_ m)))) <=
+  occ i (w_srv w) + match m with Publish _ id _ _ _ _ _ _ => ind (id =? i) | _ => 0 end.
+Proof.
+  intros HS Hok. unfold do_meth. destruct (exec (w_srv w) now m) as [s1 r] eqn:E.
+  assert (H1 : occ i s1 <= occ i (w_srv w) + match m with Publish _ id _ _ _ _ _ _ => ind (id =? i) | _ => 0 end).
+  { replace s1 with (fst (exec (w_srv w) now m)) by (rewrite E; reflexivity).
+    destruct m; try (rewrite Z.add_0_r; apply exec_nonpub_le; [exact HS | reflexivity]). apply exec_pub_le. exact HS. }
+  assert (HC1 : Closed s1).
+  { destruct HS as [HC HU]. pose proof (inv_exec (w_srv w) now m HC HU Hok) as HI. rewrite E in HI. tauto. }
+  pose proof (occ_pump_le PUMP_FUEL s1 now i HC1) as HP. destruct (pump PUMP_FUEL s1 now) as [s2 ds]. cbn [fst w_srv] in *. lia.
+Qed.
+
+(* callbacks never touch the server in their synchronous part, and the only method they go on to issue is a nack *)
+Lemma react_srv e w now d : w_srv (fst (react e w now d)) = w_srv w /\
+  match snd (react e w now d) with RNone => True | RMeth m => exists t, m = Nack t end.
+Proof.
+  unfold react. destruct (cl_by_ctag (d_ctag d) (w_cl w)) as [[c cs]|]; [|split; [reflexivity | exact I]].
+  destruct (cs_paused cs || negb (cs_consuming cs)); [split; [reflexivity | exact I]|].
+  destruct (negb (topic_ok (cs_topics cs) (a_topic (d_msg d)))); [split; [reflexivity | exact I]|].
+  destruct (overdue_code e (a_pcode (d_msg d)) now && cat_eqb (cs_cat cs) Normal); cbn [fst snd w_srv]; split; auto. eexists. reflexivity.
+Qed.
+
+Definition settled_meth (m : meth) : Prop := (exists t, m = Nack t) \/ (exists t, m = Reject t).
+Lemma settled_nonpub m : settled_meth m -> is_pub m = false /\ forall s, meth_ok s m.
+Proof. intros [[t ->]|[t ->]]; split; try reflexivity; intros s; exact I. Qed.
+
+Lemma react_all_srv e : forall ds w now, w_srv (fst (react_all e w now ds)) = w_srv w /\ Forall settled_meth (snd (react_all e w now ds)).
+Proof.
+  induction ds as [|d r IH]; intros w now; cbn [react_all]; [split; [reflexivity | constructor]|].
+  destruct (react e w now d) as [w1 x] eqn:E. pose proof (react_srv e w now d) as [H1 H2]. rewrite E in H1, H2. cbn [fst snd] in H1, H2.
+  destruct (react_all e w1 now r) as [w2 ms] eqn:E2. destruct (IH w1 now) as [H3 H4]. rewrite E2 in H3, H4. cbn [fst snd] in *.
+  split; [congruence|]. destruct x as [|m]; [exact H4|]. constructor; [left; exact H2 | exact H4].
+Qed.
+
+(* methods that are not publishes, each followed by the server's run: the invariants stay, no id gains a place *)
+Lemma do_meths_le by_ i : forall ms w now, SI (w_srv w) -> Forall settled_meth ms ->
+  SI (w_srv (fst (fst (do_meths w now by_ ms)))) /\ occ i (w_srv (fst (fst (do_meths w now by_ ms)))) <= occ i (w_srv w).
+Proof.
+  induction ms as [|m r IH]; intros w now HS HF; cbn [do_meths]; [cbn [fst]; split; [exact HS | lia]|].
+  inversion HF as [|? ? Hm Hr]; subst. destruct (settled_nonpub m Hm) as [Hp Hok].
+  pose proof (do_meth_SI w now by_ m HS (Hok _)) as H1. pose proof (do_meth_occ w now by_ m i HS (Hok _)) as H2.
+  destruct (do_meth w now by_ m) as [[w1 l] ds]. cbn [fst] in H1, H2.
+  destruct (IH w1 now H1 Hr) as [H3 H4]. destruct (do_meths w1 now by_ r) as [[w2 ls] ds2]. cbn [fst] in *.
+  split; [exact H3|]. destruct Hm as [[t ->]|[t ->]]; lia.
+Qed.
+
+Lemma settle_le e i : forall fuel w now ds, SI (w_srv w) ->
+  SI (w_srv (fst (settle fuel e w now ds))) /\ occ i (w_srv (fst (settle fuel e w now ds))) <= occ i (w_srv w).
+Proof.
+  induction fuel as [|f IH]; intros w now ds HS; cbn [settle]; [cbn [fst]; split; [exact HS | lia]|].
+  destruct ds as [|d r]; [cbn [fst]; split; [exact HS | lia]|].
+  pose proof (react_all_srv e (d :: r) w now) as [H1 H2]. destruct (react_all e w now (d :: r)) as [w1 ms]. cbn [fst snd] in H1, H2.
+  assert (HS1 : SI (w_srv w1)) by (rewrite H1; exact HS).
+  destruct (do_meths_le Callback i ms w1 now HS1 H2) as [H3 H4]. destruct (do_meths w1 now Callback ms) as [[w2 ls] ds2]. cbn [fst] in H3, H4.
+  destruct (IH w2 now ds2 H3) as [H5 H6]. destruct (settle f e w2 now ds2) as [w3 ls2]. cbn [fst] in *.
+  split; [exact H5 | rewrite H1 in H4; lia].
+Qed.
+
+(* an API call's methods: every id gains at most one place per publish of that id *)
+Fixpoint pubs (i : Z) (ms : list meth) : Z :=
+  match ms with
+  | [] => 0
+  | Publish _ id _ _ _ _ _ _ :: r => ind (id =? i) + pubs i r
+  | _ :: r => pubs i r
+  end.
+
+Fixpoint meths_ok (s : srv) (ms : list meth) : Prop :=
+  match ms with [] => True | m :: r => (forall k, m <> Declare k) /\ meths_ok s r end.
+
+Lemma api_meths_le e i : forall ms w now, SI (w_srv w) -> meths_ok (w_srv w) ms ->
+  SI (w_srv (fst (api_meths e w now ms))) /\ occ i (w_srv (fst (api_meths e w now ms))) <= occ i (w_srv w) + pubs i ms.
+Proof.
+  induction ms as [|m r IH]; intros w now HS Hok; cbn [api_meths]; [cbn [fst pubs]; split; [exact HS | lia]|].
+  destruct Hok as [Hnd Hr].
+  pose proof (do_meth_SI w now Api m HS (meth_ok_nondecl _ _ Hnd)) as H1.
+  pose proof (do_meth_occ w now Api m i HS (meth_ok_nondecl _ _ Hnd)) as H2.
+  destruct (do_meth w now Api m) as [[w1 l] ds]. cbn [fst] in H1, H2.
+  destruct (settle_le e i SETTLE_FUEL w1 now ds H1) as [H3 H4]. destruct (settle SETTLE_FUEL e w1 now ds) as [w2 ls]. cbn [fst] in H3, H4.
+  assert (Hr2 : meths_ok (w_srv w2) r) by (clear - Hr; induction r as [|x r IH]; cbn in *; tauto).
+  destruct (IH w2 now H3 Hr2) as [H5 H6]. destruct (api_meths e w2 now r) as [w3 ls2]. cbn [fst] in *.
+  split; [exact H5|]. destruct m; cbn [pubs]; lia.
+Qed.
+
+(* ---- queues, once declared, stay declared ---- *)
+Definition Ext (s s' : srv) : Prop := forall k, declared s k = true -> declared s' k = true.
+Lemma Ext_refl s : Ext s s.  Proof. intros k H; exact H. Qed.
+Lemma Ext_trans a b c : Ext a b -> Ext b c -> Ext a c.  Proof. intros H1 H2 k H. auto. Qed.
+
+Lemma Ext_exec s now m : Ext s (fst (exec s now m)).
+Proof.
+  intros k0 H. destruct m as [k id prio topic hq payload pcode ex | t | t | t | n | k | ct | k | k]; cbn [exec].
+  - destruct (declared s k); cbn [fst]; [rewrite declared_route|]; exact H.
+  - destruct (take_tag t (unacked s)) as [[u r]|]; cbn [fst]; exact H.
+  - destruct (take_tag t (unacked s)) as [[u r]|]; cbn [fst]; [rewrite declared_dead_letter|]; exact H.
+  - destruct (take_tag t (unacked s)) as [[u r]|]; cbn [fst]; [rewrite declared_set_ready; change (declared (set_unacked s r) k0) with (declared s k0); rewrite H; reflexivity | exact H].
+  - exact H.
+  - exact H.
+  - exact H.
+  - cbn [fst]. destruct (qget k (queues s)) eqn:E; [exact H|].
+    change (declared (set_ready s k []) k0 = true). rewrite declared_set_ready, H. reflexivity.
+  - cbn [fst]. destruct (declared s k); [rewrite declared_set_ready, H; reflexivity | exact H].
+Qed.
+
+Lemma declared_after_declare s now k : declared (fst (exec s now (Declare k))) k = true.
+Proof.
+  cbn [exec fst]. destruct (qget k (queues s)) eqn:E; [unfold declared; cbn [queues]; rewrite E; reflexivity|].
+  change (declared (set_ready s k []) k = true). rewrite declared_set_ready, qkey_eqb_refl. apply orb_true_r.
+Qed.
+
+Lemma Ext_pump fuel : forall s now, Ext s (fst (pump fuel s now)).
+Proof.
+  induction fuel as [|f IH]; intros s now; cbn [pump fst]; [apply Ext_refl|].
+  destruct (expire_one s now) as [s'|] eqn:E.
+  - eapply Ext_trans; [|apply IH]. unfold expire_one in E.
+    destruct (find_expired s now (map fst (queues s))) as [[[k m] rest]|]; [|discriminate]. inversion E; subst.
+    intros k0 H. rewrite declared_dead_letter, declared_set_ready, H. reflexivity.
+  - destruct (deliver_one s) as [[s' d]|] eqn:D; [|apply Ext_refl].
+    assert (H1 : Ext s s').
+    { destruct (deliver_one_spec _ _ _ D) as (c & rest & _ & _ & _ & _ & Hq & _). intros k0 H.
+      assert (Hd : declared s' k0 = declared (set_ready s (c_q c) rest) k0) by (unfold declared; rewrite Hq; reflexivity).
+      rewrite Hd, declared_set_ready, H. reflexivity. }
+    specialize (IH s' now). destruct (pump f s' now) as [s'' ds]. cbn [fst] in *. eapply Ext_trans; eauto.
+Qed.
+
+Lemma Ext_do_meth w now by_ m : Ext (w_srv w) (w_srv (fst (fst (do_meth w now by_ m)))).
+Proof.
+  unfold do_meth. pose proof (Ext_exec (w_srv w) now m) as H1. destruct (exec (w_srv w) now m) as [s1 r]. cbn [fst] in H1.
+  pose proof (Ext_pump PUMP_FUEL s1 now) as H2. destruct (pump PUMP_FUEL s1 now) as [s2 ds]. cbn [fst w_srv] in *. eapply Ext_trans; eauto.
+Qed.
+
+Lemma Ext_do_meths by_ : forall ms w now, Ext (w_srv w) (w_srv (fst (fst (do_meths w now by_ ms)))).
+Proof.
+  induction ms as [|m r IH]; intros w now; cbn [do_meths]; [apply Ext_refl|].
+  pose proof (Ext_do_meth w now by_ m) as H1. destruct (do_meth w now by_ m) as [[w1 l] ds]. cbn [fst] in H1.
+  specialize (IH w1 now). destruct (do_meths w1 now by_ r) as [[w2 ls] ds2]. cbn [fst] in *. eapply Ext_trans; eauto.
+Qed.
+
+Lemma Ext_settle e : forall fuel w now ds, Ext (w_srv w) (w_srv (fst (settle fuel e w now ds))).
+Proof.
+  induction fuel as [|f IH]; intros w now ds; cbn [settle]; [apply Ext_refl|]. destruct ds as [|d r]; [apply Ext_refl|].
+  pose proof (react_all_srv e (d :: r) w now) as [H1 _]. destruct (react_all e w now (d :: r)) as [w1 ms]. cbn [fst] in H1.
+  pose proof (Ext_do_meths Callback ms w1 now) as H2. destruct (do_meths w1 now Callback ms) as [[w2 ls] ds2]. cbn [fst] in H2.
+  specialize (IH w2 now ds2). destruct (settle f e w2 now ds2) as [w3 ls2]. cbn [fst] in *. rewrite H1 in H2. eapply Ext_trans; eauto.
+Qed.
+
+(* ---- repid's queue_declare: the invariants hold afterwards, nothing moves ---- *)
+Lemma api_one e w now m i : SI (w_srv w) -> meth_ok (w_srv w) m ->
+  SI (w_srv (fst (api_meths e w now [m]))) /\ Ext (w_srv w) (w_srv (fst (api_meths e w now [m]))) /\
+  occ i (w_srv (fst (api_meths e w now [m]))) <= occ i (w_srv w) + match m with Publish _ id _ _ _ _ _ _ => ind (id =? i) | _ => 0 end /\
+  Ext (fst (exec (w_srv w) now m)) (w_srv (fst (api_meths e w now [m]))).
+Proof.
+  intros HS Hok. cbn [api_meths].
+  pose proof (do_meth_SI w now Api m HS Hok) as H1. pose proof (do_meth_occ w now Api m i HS Hok) as H2.
+  pose proof (Ext_do_meth w now Api m) as H3.
+  assert (H3' : Ext (fst (exec (w_srv w) now m)) (w_srv (fst (fst (do_meth w now Api m))))).
+  { unfold do_meth. destruct (exec (w_srv w) now m) as [s1 r]. pose proof (Ext_pump PUMP_FUEL s1 now) as HP.
+    destruct (pump PUMP_FUEL s1 now) as [s2 ds]. exact HP. }
+  destruct (do_meth w now Api m) as [[w1 l] ds]. cbn [fst] in *.
+  destruct (settle_le e i SETTLE_FUEL w1 now ds H1) as [H4 H5]. pose proof (Ext_settle e SETTLE_FUEL w1 now ds) as H6.
+  destruct (settle SETTLE_FUEL e w1 now ds) as [w2 ls]. cbn [fst] in *.
+  split; [exact H4|]. split; [eapply Ext_trans; eauto|]. split; [lia | eapply Ext_trans; eauto].
+Qed.
+
+Lemma api_meths_cons e w now m r :
+  fst (api_meths e w now (m :: r)) = fst (api_meths e (fst (api_meths e w now [m])) now r).
+Proof.
+  cbn [api_meths]. destruct (do_meth w now Api m) as [[w1 l] ds]. destruct (settle SETTLE_FUEL e w1 now ds) as [w2 ls]. cbn [fst].
+  destruct (api_meths e w2 now r) as [w3 ls2]. reflexivity.
+Qed.
+
+(* the exact effect of an acknowledgement that finds its delivery *)
+Lemma api_ack_exact e w now t u r i :
+  SI (w_srv w) -> take_tag t (unacked (w_srv w)) = Some (u, r) ->
+  occ i (w_srv (fst (api_meths e w now [Ack t]))) <= occ i (w_srv w) - ind (a_id (u_msg u) =? i).
+Proof.
+  intros HS Ht. cbn [api_meths]. unfold do_meth.
+  pose proof (occ_exec (w_srv w) now (Ack t) i (proj1 HS) (proj2 HS)) as He. cbn [delta] in He. rewrite Ht in He.
+  pose proof (inv_exec (w_srv w) now (Ack t) (proj1 HS) (proj2 HS) I) as HI.
+  destruct (exec (w_srv w) now (Ack t)) as [s1 rp]. cbn [fst] in He, HI.
+  pose proof (occ_pump_le PUMP_FUEL s1 now i (proj1 HI)) as HP. pose proof (SI_pump PUMP_FUEL s1 now HI) as HS2.
+  destruct (pump PUMP_FUEL s1 now) as [s2 ds]. cbn [fst] in HP, HS2.
+  match goal with |- context [settle SETTLE_FUEL e ?w1 now ds] => pose proof (settle_le e i SETTLE_FUEL w1 now ds HS2) as [_ H4]; destruct (settle SETTLE_FUEL e w1 now ds) as [w2 ls] end.
+  cbn [fst w_srv] in *. lia.
+Qed.
+
+Definition WI (w : world) : Prop := SI (w_srv w) /\ forall i, occ i (w_srv w) <= 1.
+
+(* well-behaved callers: fresh ids on enqueue; requeue of a message that is held (its delivery tag is known and outstanding) *)
+Definition wb_op (w : world) (o : rop) : Prop :=
+  match o with
+  | RPut id _ _ _ _ _ => occ id (w_srv w) = 0
+  | RRequeue id _ _ _ _ _ =>
+      exists t rest u r, tag_pop id (w_tags w) = (Some t, rest) /\ take_tag t (unacked (w_srv w)) = Some (u, r) /\ a_id (u_msg u) = id
+  | _ => True
+  end.
+
+Lemma with_srv_same w cl tg pd : w_srv (mkW (w_srv w) cl tg pd) = w_srv w.  Proof. reflexivity. Qed.
+
+Lemma terminal_le e w now id mk i : SI (w_srv w) -> (forall t, settled_meth (mk t) \/ mk t = Ack t) ->
+  SI (w_srv (fst (terminal e w now id mk))) /\ occ i (w_srv (fst (terminal e w now id mk))) <= occ i (w_srv w).
+Proof.
+  intros HS Hmk. unfold terminal. destruct (tag_pop id (w_tags w)) as [[t|] rest]; [|cbn [fst]; split; [exact HS | lia]].
+  set (w0 := mkW (w_srv w) (w_cl w) rest (w_pending w)).
+  assert (Hok : meths_ok (w_srv w0) [mk t]).
+  { cbn. split; [|exact I]. intros k Hk. destruct (Hmk t) as [[[x Hx]|[x Hx]]|Hx]; rewrite Hx in Hk; discriminate. }
+  destruct (api_meths_le e i [mk t] w0 now HS Hok) as [H1 H2]. split; [exact H1|].
+  assert (Hp : pubs i [mk t] = 0). { destruct (Hmk t) as [[[x Hx]|[x Hx]]|Hx]; rewrite Hx; reflexivity. }
+  rewrite Hp in H2. cbn [w_srv w0] in H2. lia.
+Qed.
+
+Lemma take_loop_le e i c : forall fuel w now, SI (w_srv w) ->
+  SI (w_srv (fst (fst (take_loop fuel e w now c)))) /\ occ i (w_srv (fst (fst (take_loop fuel e w now c)))) <= occ i (w_srv w).
+Proof.
+  induction fuel as [|f IH]; intros w now HS; cbn [take_loop]; [cbn [fst]; split; [exact HS | lia]|].
+  destruct (cl_get c w) as [cs|]; [|cbn [fst]; split; [exact HS | lia]].
+  destruct (cs_buf cs) as [|m r]; [cbn [fst]; split; [exact HS | lia]|].
+  match goal with |- context [terminal e ?x now (a_id m) Nack] => set (w0 := x) end.
+  destruct (cat_eqb (cs_cat cs) Normal && overdue_code e (a_pcode m) now); [|subst w0; cbn [fst w_srv]; split; [exact HS | lia]].
+  assert (HS0 : SI (w_srv w0)) by exact HS.
+  destruct (terminal_le e w0 now (a_id m) Nack i HS0) as [H1 H2]; [intros t; left; left; eexists; reflexivity|].
+  destruct (terminal e w0 now (a_id m) Nack) as [w1 l1]. cbn [fst] in H1, H2.
+  destruct (IH w1 now H1) as [H3 H4]. destruct (take_loop f e w1 now c) as [[w2 l2] res]. cbn [fst] in *.
+  split; [exact H3|]. cbn [w_srv w0] in H2. lia.
+Qed.
+
+Lemma at_instant_le e w t i : SI (w_srv w) ->
+  SI (w_srv (fst (at_instant e w t))) /\ occ i (w_srv (fst (at_instant e w t))) <= occ i (w_srv w).
+Proof.
+  intros HS. unfold at_instant.
+  pose proof (SI_pump PUMP_FUEL (w_srv w) t HS) as H1. pose proof (occ_pump_le PUMP_FUEL (w_srv w) t i (proj1 HS)) as H2.
+  destruct (pump PUMP_FUEL (w_srv w) t) as [s1 ds0]. cbn [fst] in H1, H2.
+  match goal with |- context [settle SETTLE_FUEL e ?x t ds0] => set (w0 := x) end.
+  destruct (settle_le e i SETTLE_FUEL w0 t ds0 H1) as [H3 H4]. destruct (settle SETTLE_FUEL e w0 t ds0) as [w1 ls0]. cbn [fst] in H3, H4.
+  match goal with |- context [do_meths w1 t Callback ?x] => set (ms := x) end.
+  assert (Hms : Forall settled_meth ms).
+  { subst ms. apply Forall_forall. intros m Hin. apply in_map_iff in Hin. destruct Hin as [x [<- _]]. right. eexists. reflexivity. }
+  destruct (do_meths_le Callback i ms w1 t H3 Hms) as [H5 H6]. destruct (do_meths w1 t Callback ms) as [[w2 ls] ds]. cbn [fst] in H5, H6.
+  destruct (settle_le e i SETTLE_FUEL w2 t ds H5) as [H7 H8]. destruct (settle SETTLE_FUEL e w2 t ds) as [w3 ls2]. cbn [fst] in *.
+  split; [exact H7|]. cbn [w_srv w0] in H4. lia.
+Qed.
+
+Lemma advance_le e i target : forall fuel w, SI (w_srv w) ->
+  SI (w_srv (fst (advance fuel e w target))) /\ occ i (w_srv (fst (advance fuel e w target))) <= occ i (w_srv w).
+Proof.
+  induction fuel as [|f IH]; intros w HS; cbn [advance]; [cbn [fst]; split; [exact HS | lia]|].
+  destruct (min_opt (next_expiry (queues (w_srv w))) (next_pending (w_pending w))) as [t|]; [|cbn [fst]; split; [exact HS | lia]].
+  destruct (t <=? target); [|cbn [fst]; split; [exact HS | lia]].
+  destruct (at_instant_le e w t i HS) as [H1 H2]. destruct (at_instant e w t) as [w1 ls]. cbn [fst] in H1, H2.
+  destruct (IH w1 H1) as [H3 H4]. destruct (advance f e w1 target) as [w2 ls2]. cbn [fst] in *. split; [exact H3 | lia].
+Qed.
+
+Lemma pubs_enqueue e now id topic q prio payload pcode i : pubs i [enqueue_meth e now id topic q prio payload pcode] = ind (id =? i).
+Proof. unfold enqueue_meth. cbv zeta. cbn [pubs]. lia. Qed.
+
+Lemma run_res {A B : Type} (x : A * B) (z : Z) : fst (fst (let '(a, b) := x in (a, b, z))) = fst x.
+Proof. destruct x; reflexivity. Qed.
+
+Lemma run_res2 (x : world * list mlog) (f : world -> world * list mlog) :
+  fst (fst (let '(a, b) := x in let '(c, d) := f a in (c, b ++ d, 0))) = fst (f (fst x)).
+Proof. destruct x as [a b]. cbn [fst]. destruct (f a); reflexivity. Qed.
+
+Lemma run_res3 {A : Type} (x : A * list mlog) (l1 : list mlog) (z : Z) : fst (fst (let '(a, b) := x in (a, l1 ++ b, z))) = fst x.
+Proof. destruct x; reflexivity. Qed.
+
+Lemma WI_intro w : SI (w_srv w) -> (forall i, occ i (w_srv w) <= 1) -> WI w.
+Proof. intros A B. split; assumption. Qed.
+
+(* a step that keeps the invariants and gives no id a new place keeps WI *)
+Lemma WI_le w w' : WI w -> SI (w_srv w') -> (forall i, occ i (w_srv w') <= occ i (w_srv w)) -> WI w'.
+Proof. intros [_ Ho] HS Hle. split; [exact HS|]. intros i. specialize (Ho i). specialize (Hle i). lia. Qed.
+
+Lemma nd_RDeclare e w now q : WI w -> wb_op w (RDeclare q) -> WI (fst (fst (run_op e w now (RDeclare q)))).
+Proof.
+  (* queue_declare: <q>:dead, then <q>, then <q>:delayed - each finds its dead-letter target declared *)
+  intros HW Hwb. pose proof HW as [HS Ho]. cbv beta iota zeta delta [run_op].
+  rewrite run_res.
+  rewrite api_meths_cons, api_meths_cons.
+  generalize (fun i => api_one e w now (Declare (mkQK q QDead)) i HS I).
+  generalize (fst (api_meths e w now [Declare (mkQK q QDead)])). intros w1 A1.
+  assert (S1 : SI (w_srv w1)) by apply (A1 0).
+  assert (D1 : declared (w_srv w1) (mkQK q QDead) = true) by (destruct (A1 0) as (_ & _ & _ & H); apply H, declared_after_declare).
+  assert (Hok2 : meth_ok (w_srv w1) (Declare (mkQK q QNormal))) by exact D1.
+  generalize (fun i => api_one e w1 now (Declare (mkQK q QNormal)) i S1 Hok2).
+  generalize (fst (api_meths e w1 now [Declare (mkQK q QNormal)])). intros w2 A2.
+  assert (S2 : SI (w_srv w2)) by apply (A2 0).
+  assert (D2 : declared (w_srv w2) (mkQK q QNormal) = true) by (destruct (A2 0) as (_ & _ & _ & H); apply H, declared_after_declare).
+  assert (Hok3 : meth_ok (w_srv w2) (Declare (mkQK q QDelayed))) by exact D2.
+  generalize (fun i => api_one e w2 now (Declare (mkQK q QDelayed)) i S2 Hok3).
+  generalize (fst (api_meths e w2 now [Declare (mkQK q QDelayed)])). intros w3 A3.
+  apply (WI_le w); [exact HW | apply (A3 0)|]. intros i.
+  destruct (A1 i) as (_ & _ & H1 & _). destruct (A2 i) as (_ & _ & H2 & _). destruct (A3 i) as (_ & _ & H3 & _). lia.
+Qed.
+
+Lemma nd_RAddConsumer e w now c q ct topics mx : WI w -> wb_op w (RAddConsumer c q ct topics mx) -> WI (fst (fst (run_op e w now (RAddConsumer c q ct topics mx)))).
+Proof.
+  intros HW Hwb. pose proof HW as [HS Ho]. cbv beta iota zeta delta [run_op].
+  (* start of a consumer *)
+    match goal with |- context [api_meths e ?x now ?y] => set (w0 := x); set (ms := y) end.
+    assert (HS0 : SI (w_srv w0)) by exact HS.
+    assert (Hok : meths_ok (w_srv w0) ms) by (subst ms; cbn; repeat split; discriminate).
+    rewrite run_res.
+    apply (WI_le w); [exact HW | apply (api_meths_le e 0 ms w0 now HS0 Hok)|].
+    intros i. destruct (api_meths_le e i ms w0 now HS0 Hok) as [_ H]. subst ms. cbn [pubs] in H. cbn [w_srv w0] in H. lia.
+Qed.
+
+Lemma nd_RPut e w now id topic q prio payload pcode : WI w -> wb_op w (RPut id topic q prio payload pcode) -> WI (fst (fst (run_op e w now (RPut id topic q prio payload pcode)))).
+Proof.
+  intros HW Hwb. pose proof HW as [HS Ho]. cbv beta iota zeta delta [run_op].
+  (* enqueue of a fresh id *)
+    rewrite run_res.
+    assert (Hok : meths_ok (w_srv w) [enqueue_meth e now id topic q prio payload pcode]) by (cbn; split; [unfold enqueue_meth; discriminate | exact I]).
+    split; [apply (api_meths_le e 0 _ w now HS Hok)|]. intros i.
+    destruct (api_meths_le e i _ w now HS Hok) as [_ H]. rewrite pubs_enqueue in H. cbn [wb_op] in Hwb.
+    unfold ind in H. destruct (id =? i) eqn:E; [apply Z.eqb_eq in E; subst; lia | specialize (Ho i); lia].
+Qed.
+
+Lemma nd_RTake e w now c : WI w -> wb_op w (RTake c) -> WI (fst (fst (run_op e w now (RTake c)))).
+Proof.
+  intros HW Hwb. pose proof HW as [HS Ho]. cbv beta iota zeta delta [run_op].
+  (* take *)
+    apply (WI_le w); [exact HW | apply (take_loop_le e 0 c TAKE_FUEL w now HS) | intros i; apply (take_loop_le e i c TAKE_FUEL w now HS)].
+Qed.
+
+Lemma nd_RAck e w now id : WI w -> wb_op w (RAck id) -> WI (fst (fst (run_op e w now (RAck id)))).
+Proof.
+  intros HW Hwb. pose proof HW as [HS Ho]. cbv beta iota zeta delta [run_op].
+  rewrite run_res.
+    apply (WI_le w); [exact HW | apply (terminal_le e w now id Ack 0 HS); intros t; right; reflexivity
+                      | intros i; apply (terminal_le e w now id Ack i HS); intros t; right; reflexivity].
+Qed.
+
+Lemma nd_RNack e w now id : WI w -> wb_op w (RNack id) -> WI (fst (fst (run_op e w now (RNack id)))).
+Proof.
+  intros HW Hwb. pose proof HW as [HS Ho]. cbv beta iota zeta delta [run_op].
+  rewrite run_res.
+    apply (WI_le w); [exact HW | apply (terminal_le e w now id Nack 0 HS); intros t; left; left; eexists; reflexivity
+                      | intros i; apply (terminal_le e w now id Nack i HS); intros t; left; left; eexists; reflexivity].
+Qed.
+
+Lemma nd_RReject e w now id : WI w -> wb_op w (RReject id) -> WI (fst (fst (run_op e w now (RReject id)))).
+Proof.
+  intros HW Hwb. pose proof HW as [HS Ho]. cbv beta iota zeta delta [run_op].
+  rewrite run_res.
+    apply (WI_le w); [exact HW | apply (terminal_le e w now id Reject 0 HS); intros t; left; right; eexists; reflexivity
+                      | intros i; apply (terminal_le e w now id Reject i HS); intros t; left; right; eexists; reflexivity].
+Qed.
+
+Lemma nd_RRequeue e w now id topic q prio payload pcode : WI w -> wb_op w (RRequeue id topic q prio payload pcode) -> WI (fst (fst (run_op e w now (RRequeue id topic q prio payload pcode)))).
+Proof.
+  intros HW Hwb. pose proof HW as [HS Ho]. cbv beta iota zeta delta [run_op].
+  (* requeue of a held message: the ack takes its only place away, the publish gives it one *)
+    cbn [wb_op] in Hwb. destruct Hwb as (t & rest & u & r & Hpop & Htake & Hid).
+    rewrite (run_res2 (terminal e w now id Ack) (fun w1 => api_meths e w1 now [enqueue_meth e now id topic q prio payload pcode])).
+    set (w1 := fst (terminal e w now id Ack)). set (ms := [enqueue_meth e now id topic q prio payload pcode]).
+    assert (H1 : SI (w_srv w1) /\ forall i, occ i (w_srv w1) <= occ i (w_srv w) - ind (id =? i)).
+    { subst w1. unfold terminal. rewrite Hpop. set (w0 := mkW (w_srv w) (w_cl w) rest (w_pending w)).
+      assert (HS0 : SI (w_srv w0)) by exact HS.
+      split; [apply (api_meths_le e 0 [Ack t] w0 now HS0); cbn; split; [discriminate | exact I]|].
+      intros i. pose proof (api_ack_exact e w0 now t u r i HS0 Htake) as H. rewrite Hid in H. exact H. }
+    destruct H1 as [S1 O1].
+    assert (Hok : meths_ok (w_srv w1) ms) by (subst ms; cbn; split; [unfold enqueue_meth; discriminate | exact I]).
+    split; [apply (api_meths_le e 0 ms w1 now S1 Hok)|]. intros i.
+    destruct (api_meths_le e i ms w1 now S1 Hok) as [_ H]. subst ms. rewrite pubs_enqueue in H.
+    specialize (O1 i). specialize (Ho i). lia.
+Qed.
+
+Lemma nd_RPause e w now c : WI w -> wb_op w (RPause c) -> WI (fst (fst (run_op e w now (RPause c)))).
+Proof.
+  intros HW Hwb. pose proof HW as [HS Ho]. cbv beta iota zeta delta [run_op].
+  (* pause *)
+    destruct (cl_get c w) as [cs|]; [|exact HW].
+    match goal with |- context [api_meths e ?x now ?y] => set (w0 := x); set (ms := y) end.
+    assert (HS0 : SI (w_srv w0)) by exact HS. assert (Hok : meths_ok (w_srv w0) ms) by (subst ms; cbn; repeat split; discriminate).
+    rewrite run_res.
+    apply (WI_le w); [exact HW | apply (api_meths_le e 0 ms w0 now HS0 Hok)|].
+    intros i. destruct (api_meths_le e i ms w0 now HS0 Hok) as [_ H]. subst ms. cbn [pubs] in H. cbn [w_srv w0] in H. lia.
+Qed.
+
+Lemma nd_RUnpause e w now c : WI w -> wb_op w (RUnpause c) -> WI (fst (fst (run_op e w now (RUnpause c)))).
+Proof.
+  intros HW Hwb. pose proof HW as [HS Ho]. cbv beta iota zeta delta [run_op].
+  (* unpause *)
+    destruct (cl_get c w) as [cs|]; [|exact HW].
+    match goal with |- context [api_meths e ?x now ?y] => set (w0 := x); set (ms := y) end.
+    assert (HS0 : SI (w_srv w0)) by exact HS. assert (Hok : meths_ok (w_srv w0) ms) by (subst ms; cbn; repeat split; discriminate).
+    rewrite run_res.
+    apply (WI_le w); [exact HW | apply (api_meths_le e 0 ms w0 now HS0 Hok)|].
+    intros i. destruct (api_meths_le e i ms w0 now HS0 Hok) as [_ H]. subst ms. cbn [pubs] in H. cbn [w_srv w0] in H. lia.
+Qed.
+
+Lemma nd_RFinish e w now c : WI w -> wb_op w (RFinish c) -> WI (fst (fst (run_op e w now (RFinish c)))).
+Proof.
+  intros HW Hwb. pose proof HW as [HS Ho]. cbv beta iota zeta delta [run_op].
+  (* finish: cancel, then reject what is in the buffer *)
+    destruct (cl_get c w) as [cs|]; [|exact HW]. destruct (cs_ctag cs) as [ct|]; [|exact HW].
+    match goal with |- context [api_meths e ?x now [Cancel ct]] => set (w0 := x) end.
+    assert (HS0 : SI (w_srv w0)) by exact HS.
+    assert (Hok0 : meths_ok (w_srv w0) [Cancel ct]) by (cbn; repeat split; discriminate).
+    destruct (api_meths_le e 0 [Cancel ct] w0 now HS0 Hok0) as [S1 _].
+    assert (O1 : forall i, occ i (w_srv (fst (api_meths e w0 now [Cancel ct]))) <= occ i (w_srv w)).
+    { intros i. destruct (api_meths_le e i [Cancel ct] w0 now HS0 Hok0) as [_ H]. cbn [pubs] in H. cbn [w_srv w0] in H. lia. }
+    destruct (api_meths e w0 now [Cancel ct]) as [w1 l1]. cbn [fst] in S1, O1.
+    match goal with |- context [api_meths e ?x now (map Reject ?y)] => set (w2 := x); set (ts := y) end.
+    assert (S2 : SI (w_srv w2)) by exact S1.
+    assert (Hok2 : meths_ok (w_srv w2) (map Reject ts)).
+    { clearbody ts. clear. induction ts as [|t ts IH]; cbn; [exact I | split; [discriminate | exact IH]]. }
+    assert (Hp : forall i, pubs i (map Reject ts) = 0) by (intros i; clearbody ts; clear; induction ts as [|t ts IH]; cbn; auto).
+    rewrite run_res3.
+    apply (WI_le w); [exact HW | apply (api_meths_le e 0 _ w2 now S2 Hok2)|].
+    intros i. destruct (api_meths_le e i _ w2 now S2 Hok2) as [_ H]. rewrite Hp in H. specialize (O1 i). cbn [w_srv w2] in H. lia.
+Qed.
+
+Lemma nd_RTick e w now d : WI w -> wb_op w (RTick d) -> WI (fst (fst (run_op e w now (RTick d)))).
+Proof.
+  intros HW Hwb. pose proof HW as [HS Ho]. cbv beta iota zeta delta [run_op].
+  (* time passes *)
+    rewrite run_res.
+    apply (WI_le w); [exact HW | apply (advance_le e 0 (now + d) ADVANCE_FUEL w HS) | intros i; apply (advance_le e i (now + d) ADVANCE_FUEL w HS)].
+Qed.
+
+Theorem rabbit_no_duplicates e w now o : WI w -> wb_op w o -> WI (fst (fst (run_op e w now o))).
+Proof.
+  destruct o; [apply nd_RDeclare | apply nd_RAddConsumer | apply nd_RPut | apply nd_RTake | apply nd_RAck | apply nd_RNack | apply nd_RReject
+               | apply nd_RRequeue | apply nd_RPause | apply nd_RUnpause | apply nd_RFinish | apply nd_RTick].
+Qed.
+
+(* every history of well-behaved callers, from the empty server: no id is ever in two places *)
+Fixpoint wb_hist (e : env) (w : world) (h : list (Z * rop)) : Prop :=
+  match h with [] => True | (now, o) :: r => wb_op w o /\ wb_hist e (fst (fst (run_op e w now o))) r end.
+Fixpoint run_ops (e : env) (w : world) (h : list (Z * rop)) : world :=
+  match h with [] => w | (now, o) :: r => run_ops e (fst (fst (run_op e w now o))) r end.
+
+Lemma WI_world0 : WI world0.
+Proof. split; [split; [intros k H; discriminate | constructor] | intros i; vm_compute; discriminate]. Qed.
+
+Theorem rabbit_no_duplicates_ever e h : forall w, WI w -> wb_hist e w h -> WI (run_ops e w h).
+Proof.
+  induction h as [|[now o] r IH]; intros w HW Hwb; cbn [run_ops]; [exact HW|]. destruct Hwb as [H1 H2].
+  apply IH; [apply rabbit_no_duplicates; assumption | exact H2].
+Qed.
+
+Corollary rabbit_no_duplicates_from_empty e h : wb_hist e world0 h -> forall i, occ i (w_srv (run_ops e world0 h)) <= 1.
+Proof. intros H. apply (rabbit_no_duplicates_ever e h world0 WI_world0 H). Qed.
+
+(* the premises are satisfiable by a history in which things happen: enqueue, delivery, take, requeue of the held message
+   into the delayed queue, its expiry and second delivery *)
+Example wb_hist_example :
+  let h := [(0, RDeclare 1); (0, RAddConsumer 1 1 Normal [] 0); (0, RPut 1 1 1 5 11 3); (0, RTake 1); (0, RRequeue 1 1 1 5 12 2);
+            (0, RTick 1500000); (1500000, RTake 1); (1500000, RAck 1)] in
+  wb_hist env_w world0 h /\ snd (run_w env_w world0 h) = [0; 0; 0; 1; 0; 0; 1; 0] /\ occ 1 (w_srv (run_ops env_w world0 h)) = 0.
+Proof.
+  cbv zeta. split; [|split; vm_compute; reflexivity].
+  vm_compute. repeat (split; try reflexivity). do 4 eexists. repeat split.
+Qed.
